@@ -2,6 +2,7 @@
  * (fault enumeration: for every creating routine the k-th allocation-class call of that
  * call fails, k = 1, 2, ... until the armed failure no longer fires) */
 #include "wl_common.h"
+#include "whitebox.h"
 
 #define POISON ((void *)0x5a5a5a5a5a5a5a50ULL)
 
@@ -1040,3 +1041,93 @@ static void run_c14_faults(void)
     only_upool = 0;
 }
 SIM_WORKLOAD("C14", "failed-associations", run_c14_faults, 2)
+
+/* ---- scenario "migration-handler": the allocation-class failure happens while a migration
+ * request is being *served*, i.e. inside ABT_thread_yield() of the migrating unit (the target
+ * is a user-defined pool whose create_unit declines), while another stream keeps requesting
+ * migrations of that unit -- the same one again, or back to its home pool.  A failed move
+ * leaves the unit where it was, with every unit of the user pool accounted for, and leaves the
+ * request machinery intact: whenever the unit sees a request pending, that request names a
+ * pool (a request that was accepted is never left behind without its target), requests keep
+ * being accepted, and moves keep happening. ---- */
+static struct {
+    ABT_xstream xa;
+    ABT_pool pa;
+    ABT_thread t;
+    volatile int t_done;
+    long fired, moved, pending_seen, requests_ok;
+} MH;
+static void mh_unit(void *arg)
+{
+    (void)arg;
+    ABT_thread self;
+    ABT_OK(ABT_self_get_thread(&self));
+    int n = 6 + (int)sim_rand_n(SIM_RS_CHAOS, 10);
+    for (int i = 0; i < n; i++) {
+        int decline = sim_rand_n(SIM_RS_CHAOS, 2) == 0;
+        ABT_pool before, after;
+        ABT_OK(ABT_self_get_last_pool(&before));
+        long frees0 = UP.frees, creates0 = UP.creates;
+        if (decline) {
+            UP.fail_next_create = 1;
+            UP.fail_fired = 0;
+        }
+        ABT_OK(ABT_thread_yield());
+        int fired = decline && UP.fail_fired;
+        UP.fail_next_create = 0;
+        ABT_OK(ABT_self_get_last_pool(&after));
+        if (fired)
+            MH.fired++;
+        if (after != before)
+            MH.moved++; /* (also after a declined attempt: a later request may have been served at the pop) */
+        /* the unit owns exactly one unit of the user-defined pool while it is associated with it */
+        SIM_CHECK(UP.creates - UP.frees == (after == UP.pool ? 1 : 0), "fault:state-changed",
+                  "the unit is %sassociated with the user-defined pool, which holds %ld live units (create_unit declined during this yield: %d)", after == UP.pool ? "" : "not ",
+                  UP.creates - UP.frees, fired);
+        (void)frees0;
+        (void)creates0;
+        if (wb_thread_request(self) & (1u << 2) /* ABTI_THREAD_REQ_MIGRATE */) {
+            MH.pending_seen++;
+            SIM_CHECK(wb_thread_migration_target(self) != NULL, "fault:request-without-target",
+                      "a migration request is pending for the unit, but it names no pool: an accepted request lost its target (after a failed association: %d)", fired);
+        }
+        sim_progress();
+    }
+    MH.t_done = 1;
+}
+static void run_c18_mig_handler(void)
+{
+    memset(&X, 0, sizeof X);
+    memset(UPS, 0, sizeof UPS);
+    up_cur = &UPS[0];
+    memset(&MH, 0, sizeof MH);
+    revive_t = ABT_THREAD_NULL;
+    sim_allow_faults((1u << SIM_F_STALL) | (1u << SIM_F_SLOW_NODE) | (1u << SIM_F_TARGET_DELAY));
+    wl_env_swarm();
+    ABT_OK(ABT_init(0, NULL));
+    up18_ensure();
+    ABT_OK(ABT_xstream_create(ABT_SCHED_NULL, &MH.xa));
+    ABT_OK(ABT_xstream_get_main_pools(MH.xa, 1, &MH.pa));
+    sim_note("C18 migration-handler ");
+    ABT_OK(ABT_thread_create(MH.pa, mh_unit, NULL, ABT_THREAD_ATTR_NULL, &MH.t));
+    int ext = plan_bool();
+    (void)ext;
+    while (!MH.t_done) {
+        int rc = ABT_thread_migrate_to_pool(MH.t, plan_n(3) ? UP.pool : MH.pa);
+        SIM_CHECK(rc == ABT_SUCCESS || rc == ABT_ERR_MIGRATION_TARGET, "api-error", "ABT_thread_migrate_to_pool returned %d", rc);
+        if (rc == ABT_SUCCESS)
+            MH.requests_ok++;
+        for (int k = (int)plan_n(3); k >= 0; k--)
+            ABT_OK(ABT_thread_yield());
+    }
+    ABT_OK(ABT_thread_free(&MH.t));
+    up18_teardown();
+    ABT_OK(ABT_xstream_join(MH.xa));
+    ABT_OK(ABT_xstream_free(&MH.xa));
+    ABT_OK(ABT_finalize());
+    sim_ledger_check_empty("after ABT_finalize");
+    sim_count("c18.migration_handler_declined", (uint64_t)MH.fired);
+    sim_count("c18.migration_handler_moves", (uint64_t)MH.moved);
+    sim_count("c18.migration_handler_pending_seen", (uint64_t)MH.pending_seen);
+}
+SIM_WORKLOAD("C18", "migration-handler", run_c18_mig_handler, 2)
